@@ -710,6 +710,71 @@ def masked_conversions(ctx, db):
     ctx.count("masked-array conversions", n)
 
 
+def nan_comparisons_and_late_pickles(ctx):
+    """(1) `==` / `!=` between arrays that hold not-a-number at the same places (an array and its copy, its pickle, a second
+    array over equal values): a comparison is a question - both operands, and the containers the caller built them from, hold
+    afterwards what they held, bit for bit. (2) Scalars and FixedArrays of derived, unit-less and captioned quantities are
+    pickled, the database then forgets what it had interned (a category of the application is registered again - the public
+    event that drops the intern table), and the pickles are read: each gives an object equal to the original."""
+    import copy
+    import pickle
+
+    import numpy as np
+    from barril.units import Array, FixedArray, GetUnknownQuantity, Scalar
+
+    nan = float("nan")
+    n = 0
+    for kind, mk in (("nd", lambda z: np.array(z, dtype=float)), ("nd32", lambda z: np.array(z, dtype=np.float32)), ("list", list), ("tuple", tuple)):
+        for vals in ([1.0, nan, 3.0], [nan, nan, nan], [nan, 2.0, 0.0]):
+            for cname, ctor in (("Array", lambda c_: Array("length", c_, "m")), ("FixedArray", lambda c_: FixedArray(3, "length", c_, "m")), ("Array, derived", lambda c_: Array(c_, "m") / Array([1.0, 1.0, 1.0], "s"))):
+                ca, cb = mk(vals), mk(vals)
+                a, b = ctor(ca), ctor(cb)
+                others = [("a second array over equal values", b), ("its CreateCopy()", a.CreateCopy()), ("its copy.copy", copy.copy(a)), ("its deepcopy", copy.deepcopy(a)), ("itself", a)]
+                if cname == "FixedArray":
+                    others.append(("its pickle", pickle.loads(pickle.dumps(a))))
+                for oname, o in others:
+                    snap = lambda: (snapshot.value_object(a), snapshot.value_object(o), snapshot.container(ca), snapshot.container(cb))  # noqa: E731
+                    before = snap()
+                    ctx.ev()
+                    n += 1
+                    ctx.nt(("nan comparison", cname, kind, oname))
+                    try:
+                        a == o, o == a, a != o, o != a
+                    except Exception as e:
+                        ctx.count("nan comparisons that raised %s" % type(e).__name__)
+                    after = snap()
+                    if after != before:
+                        ctx.violation("operand-changed-by:==-between-arrays-holding-nan", {"class": cname, "container": kind, "values": repr(vals), "compared_with": oname, "before": repr(before)[:300], "after": repr(after)[:300]}, replay={"nan_comparisons": True})
+                        break
+    ctx.count("comparisons between arrays holding nan", n)
+    db = table.build("posc")
+    with table.pushed(db):
+        db.AddCategory("vp13 scratch", "length")
+        m, s_, k = Scalar(2.0, "m"), Scalar(4.0, "s"), Scalar("mass", 3.0, "kg")
+        fa = FixedArray(2, "length", [1.0, 2.0], "cm")
+        originals = [
+            ("Scalar m*s", m * s_), ("Scalar 1/s", 1.0 / s_), ("Scalar m2", m * m), ("Scalar m/m", m / m), ("empty Scalar", Scalar.CreateEmptyScalar(5.0)), ("Scalar kg.m/s2", k * m / s_ / s_), ("Scalar, captioned", Scalar(GetUnknownQuantity("Feeeet"), 2.0)),
+            ("Scalar, simple", Scalar("depth", 2.0, "km")), ("FixedArray m*s", fa * FixedArray(2, [1.0, 2.0], "s")), ("FixedArray cm/cm", fa / fa), ("FixedArray 1/cm", 2.0 / fa), ("empty FixedArray", FixedArray.CreateEmptyArray(2, [1.0, 2.0])),
+            ("FixedArray, captioned", FixedArray(2, GetUnknownQuantity("API units"), [1.0, 2.0])), ("FixedArray (m/s)**2", (fa / FixedArray(2, [1.0, 2.0], "s")) * (fa / FixedArray(2, [1.0, 2.0], "s"))),
+        ]  # fmt: skip
+        dumps = [(nm, o, pickle.dumps(o), snapshot.value_object(o)) for nm, o in originals]
+        # the application registers one of its categories again: everything interned so far is dropped
+        db.AddCategory("vp13 scratch", "length", override=True, min_value=0.0)
+        for nm, o, blob, snap0 in dumps:
+            ctx.ev()
+            ctx.nt(("late pickle", nm))
+            case = {"object": nm, "repr": repr(o)[:120], "read": "after the database dropped its interned quantities"}
+            try:
+                back = pickle.loads(blob)
+            except Exception as e:
+                ctx.violation("copy-not-equal:pickle-read-later-raised:%s" % type(e).__name__, dict(case, error=str(e)[:160]), replay={"nan_comparisons": True})
+                continue
+            check_copy(ctx, "pickle", o, back, case)
+            if snapshot.value_object(o) != snap0:
+                ctx.violation("operand-changed-by:pickle", dict(case, before=repr(snap0)[:200], after=repr(snapshot.value_object(o))[:200]), replay={"nan_comparisons": True})
+    ctx.count("pickles read after the interned quantities were dropped", len(dumps))
+
+
 def identity_unit_pairs(ctx, db):
     """Two symbols of one quantity type that stand for the same size ('Euc' and '-', 'm3/m3' and its namesakes): re-expressing
     one in the other is the identity - which is exactly where a 'converted temporary' may turn out to be the operand's own
@@ -888,6 +953,8 @@ def run(ctx):
         with table.pushed(db):
             results_belong_to_the_caller(ctx)
             masked_conversions(ctx, db)
+    if ctx.shard == 2 % ctx.nshards:
+        nan_comparisons_and_late_pickles(ctx)
     ctx.notes["operand_monitor"] = {"boundary_calls_observed": mon.n_calls, "operand_snapshots_compared": mon.n_snapshots}
     ctx.inconclusive_if(mon.n_snapshots < 1000, "operand monitor compared fewer than 1000 snapshots")
     ctx.inconclusive_if(probe.BOUNDARY["Scalar.__reduce__"] == 0 and probe.COUNTS["Scalar.__reduce__"] == 0, "pickle path never reached")
@@ -905,6 +972,8 @@ def replay(ctx, d):
     with table.pushed(db):
         if d and d.get("zero_divisors"):
             zero_divisors(ctx)
+        elif d and d.get("nan_comparisons"):
+            nan_comparisons_and_late_pickles(ctx)
         elif d and d.get("results_belong"):
             results_belong_to_the_caller(ctx)
         elif d and d.get("masked_conversions"):
